@@ -3,9 +3,10 @@ from .. import common as C
 from .. import lbgen, lbshadow
 
 ID = "C02"
-MODULES = ["Helios.Props.C02", "Helios.Props.Facts"]
+MODULES = ["Helios.Props.Code", "Helios.Props.C02", "Helios.Props.Facts"]
 THEOREMS = ["Helios.LB.dispatch_sound", "Helios.LB.dispatch_complete", "Helios.LB.no_503_while_healthy",
-            "Helios.Facts.retry_budget_eq", "Helios.Facts.strategies_eq", "Helios.Facts.extraction_clean"]
+            "Helios.Facts.retry_budget_eq", "Helios.Facts.strategies_eq", "Helios.Facts.extraction_clean",
+            "Helios.CodeTie.eligible_refines", "Helios.CodeTie.translation_clean"]
 CLOCK_PKGS = ["internal/loadbalancer", "internal/ratelimiter", "internal/circuitbreaker", "internal/metrics"]
 
 
